@@ -232,3 +232,74 @@ def gen_pattern_and_state(d, safe_seps=False):
     if not unambiguous(nodes, state, text):
         return None, "ambiguous-pattern-text-pair", None
     return nodes, state, text
+
+
+# ------------------------------------------------------------------ PEP 440-shaped sub-grammar (C15, {pep440_version})
+
+PEP_TAGKINDS = ["none", "[PYTAGNUM]", "[-TAG]", "[-TAGNUM]", "[.PYTAGNUM]", "[-TAG[NUM]]", "[PYTAG[NUM]]", "[_TAGNUM]", "[TAGNUM]"]
+
+
+def gen_pep440_ast(d):
+    """patterns whose versions are PEP 440 versions by design: prefix '' or 'v'; numeric release parts joined by '.'
+    (or fixed-width parts glued); the release tag is the last part, separated by '', '-', '.' or '_'"""
+    nodes = []
+    if d.chance(1, 3):
+        nodes.append(["lit", "v"])
+    kind = d.choice(["cal", "sem", "cal+sem", "iso"])
+    head = []
+    if kind in ("cal", "cal+sem"):
+        head += [d.choice(YEARS)] + d.choice(SUBS)
+    elif kind == "iso":
+        head += d.choice(ISO)
+    counters = list(d.choice(SEMS)) if kind in ("sem", "cal+sem") else []
+    extra = list(d.choice(EXTRAS))
+    if kind in ("cal", "iso") and not extra and d.bool():
+        extra = [d.choice(["BUILD", "INC0", "INC1", "PATCH", "BLD"])]
+    seq = head + counters + extra
+    main = []
+    for k, p in enumerate(seq):
+        if k > 0:
+            prev = seq[k - 1]
+            glue = (not is_var(prev)) and d.chance(1, 4) and not _straddles(prev, p)
+            if not glue:
+                main.append(["lit", "."])
+        main.append(["part", p])
+    tail = []
+    while (len(main) >= 3 and main[-1][0] == "part" and main[-1][1] in ("MINOR", "PATCH", "INC0")
+           and main[-2][0] == "lit" and d.bool()):
+        part = main.pop()
+        sep = main.pop()
+        tail = [["opt", [sep, part] + tail]]
+    nodes += main + tail
+    tk = d.choice(PEP_TAGKINDS)
+    if tk != "none":
+        body = tk[1:-1]
+        grp = []
+        i = 0
+        while i < len(body):
+            if body.startswith("PYTAG", i):
+                grp.append(["part", "PYTAG"]); i += 5
+            elif body.startswith("TAG", i):
+                grp.append(["part", "TAG"]); i += 3
+            elif body.startswith("[NUM]", i):
+                grp.append(["opt", [["part", "NUM"]]]); i += 5
+            elif body.startswith("NUM", i):
+                grp.append(["part", "NUM"]); i += 3
+            else:
+                grp.append(["lit", body[i]]); i += 1
+        nodes.append(["opt", grp])
+    if not list(parts_of(nodes)):
+        nodes.append(["part", "MAJOR"])
+    return nodes
+
+
+def gen_pep440_pattern_and_state(d):
+    nodes = gen_pep440_ast(d)
+    why = validate(nodes)
+    if why:
+        return None, why, None
+    state = gen_state(d, nodes)
+    text = ref_render(nodes, state)
+    if not unambiguous(nodes, state, text):
+        return None, "ambiguous-pattern-text-pair", None
+    return nodes, state, text
